@@ -1,11 +1,1712 @@
-//! C08 — not implemented yet (stub).
-use crate::engine::Ctx;
-use serde_json::Value;
+//! C08 — independent implementations of the same model agree.
+//!
+//! Every case is a *pair* (left, right) of models that describe the same physical model through
+//! different code, evaluated at the same (T, V, N). Compared through the public `State` getters:
+//! beta A_res/N, p_res, S_res, mu_res_i, dp/dV, dp/dT, dp/dN_i, dmu_i/dN_j (all residual parts).
+//! The scale of every comparison is cancellation safe (sum over contributions of |d^k A_c|).
+use crate::engine::{Ctx, Gen, Obs, PanicPolicy, PartCfg};
+use crate::model::*;
+use crate::scales::{contrib_values, PD};
+use feos::association::Association;
+use feos::core::cubic::PengRobinson;
+use feos::core::parameter::{BinaryRecord, ChemicalRecord, Parameter, PureRecord, SegmentRecord};
+use feos::core::Derivative::{DN, DT, DV};
+use feos::core::{Components, Contributions, EquationOfState, ReferenceSystem, Residual, State, StateHD};
+use feos::epcsaft::ElectrolytePcSaft;
+use feos::gc_pcsaft::{GcPcSaft, GcPcSaftFunctional};
+use feos::hard_sphere::{FMTFunctional, HardSphere, HardSphereProperties, MonomerShape};
+use feos::ideal_gas::IdealGasModel;
+use feos::pcsaft::{PcSaft, PcSaftFunctional, PcSaftParameters, PcSaftRecord};
+use feos::pets::{Pets, PetsFunctional, PetsOptions};
+use feos::saftvrmie::SaftVRMie;
+use feos::saftvrqmie::{SaftVRQMie, SaftVRQMieFunctional};
+use feos::uvtheory::UVTheory;
+use ndarray::{Array1, ScalarOperand};
+use num_dual::DualNum;
+use quantity::*;
+use serde::{Deserialize, Serialize};
+use serde_json::{json, Value};
+use std::collections::BTreeMap;
+use std::sync::{Arc, Mutex};
 
-pub fn run(_ctx: &Ctx) {
-    panic!("C08: check not implemented yet");
+// ---------------------------------------------------------------------------------------
+// Case
+// ---------------------------------------------------------------------------------------
+#[derive(Serialize, Deserialize, Clone, Copy, Debug, PartialEq, Eq)]
+pub enum Pair {
+    /// Helmholtz energy functional as bulk `Residual` vs its equation of state
+    DftBulk,
+    /// `ResidualModel::X(m)` and `EquationOfState<IdealGasModel, m>` vs bare `m`
+    Wrapper,
+    /// ion-free ePC-SAFT vs PC-SAFT
+    EpcIonFree,
+    /// SAFT-VRQ Mie with Feynman-Hibbs order 0 vs SAFT-VR Mie with m = 1
+    VrqVsVrMie,
+    /// an associating component vs the same component split into two identical ones
+    AssocSplit,
+    /// `Association::new` vs `Association::new_cross_association`
+    AssocForced,
+    /// `PcSaftParameters::from_segments` vs `from_records` of the harness-combined record
+    HomoGc,
+    /// Peng-Robinson vs the textbook closed form in SI units
+    PengRobinson,
 }
 
-pub fn replay(_ctx: &Ctx, _part: &str, _case: &Value) -> bool {
-    panic!("C08: check not implemented yet");
+#[derive(Serialize, Deserialize, Clone, Debug)]
+pub struct Case {
+    pub pair: Pair,
+    /// the left model (HomoGc: family PcSaft, `pure` holds chemical records, `seg` the homo files)
+    pub spec: ModelSpec,
+    pub state: StateSpec,
+    /// DIPPR pool indices (Wrapper)
+    pub ig: Vec<usize>,
+    /// AssocSplit: component that is split and the fraction that stays in the first copy
+    pub comp: usize,
+    pub split: f64,
 }
+
+// ---------------------------------------------------------------------------------------
+// Tolerances (DESIGN.md 3.4). allowed = rel * min(S_l, S_r) + round * max(S_l, S_r) [+ abs]
+// where S_x = sum over the contributions of side x of |d^k A_c| (the Helmholtz energy
+// functionals carry an ideal-chain term rho (m-1)(ln rho - 1) that cancels against the chain
+// functional: their S is ~20x larger than that of the equation of state in dilute states, so the
+// relative part uses the smaller, the roundoff part the larger of the two).
+// ---------------------------------------------------------------------------------------
+#[derive(Clone, Copy)]
+pub(crate) struct Tol {
+    pub rel: f64,
+    pub round: f64,
+}
+/// two implementations of one model
+pub(crate) const TOL_IMPL: Tol = Tol { rel: 1e-9, round: 1e-12 };
+/// wrappers / copies of the same code: measured bitwise..2e-16
+pub(crate) const TOL_SAME: Tol = Tol { rel: 1e-13, round: 1e-13 };
+/// group-contribution sums run over HashMaps (per-process order)
+pub(crate) const TOL_GC: Tol = Tol { rel: 1e-11, round: 1e-12 };
+/// pairs that involve the iterative association solver: 100 x tol_cross_assoc (<= 1e-10)
+pub(crate) const TOL_ASSOC: Tol = Tol { rel: 1e-8, round: 1e-12 };
+/// monomer fractions carry an absolute error of a few eps: floor relative to the ideal-like
+/// scale (N T for A, T for mu, ...) per association site (measured 3e-16, see calibration)
+pub(crate) const FLOOR_ASSOC: f64 = 2e-14;
+/// atol on beta A/N (DESIGN.md 3.4)
+pub(crate) const ATOL_A: f64 = 1e-11;
+
+pub(crate) static WORST: Mutex<BTreeMap<String, (f64, f64)>> = Mutex::new(BTreeMap::new());
+
+pub(crate) fn track(key: &str, ratio: f64, rel: f64) {
+    if !ratio.is_finite() {
+        return;
+    }
+    let mut w = WORST.lock().unwrap();
+    let e = w.entry(key.to_string()).or_insert((0.0, 0.0));
+    if ratio > e.0 {
+        e.0 = ratio;
+    }
+    if rel > e.1 {
+        e.1 = rel;
+    }
+}
+
+// ---------------------------------------------------------------------------------------
+// Harness-side reference models built from public pieces of the library
+// ---------------------------------------------------------------------------------------
+/// additive hard spheres with temperature independent diameters
+pub struct Spheres {
+    sigma: Array1<f64>,
+}
+impl HardSphereProperties for Spheres {
+    fn monomer_shape<D: DualNum<f64> + Copy>(&self, _: D) -> MonomerShape<'_, D> {
+        MonomerShape::Spherical(self.sigma.len())
+    }
+    fn hs_diameter<D: DualNum<f64> + Copy>(&self, _: D) -> Array1<D> {
+        self.sigma.mapv(D::from)
+    }
+}
+/// the `HardSphere` (BMCSL) contribution alone, as a `Residual`
+pub struct HsEos {
+    p: Arc<Spheres>,
+    hs: HardSphere<Spheres>,
+}
+impl HsEos {
+    fn new(sigma: Array1<f64>) -> Self {
+        let p = Arc::new(Spheres { sigma });
+        Self {
+            hs: HardSphere::new(&p),
+            p,
+        }
+    }
+}
+impl Components for HsEos {
+    fn components(&self) -> usize {
+        self.p.sigma.len()
+    }
+    fn subset(&self, idx: &[usize]) -> Self {
+        Self::new(idx.iter().map(|&i| self.p.sigma[i]).collect())
+    }
+}
+impl Residual for HsEos {
+    fn compute_max_density(&self, moles: &Array1<f64>) -> f64 {
+        moles.sum() / (moles * &self.p.sigma).sum() * 1.2
+    }
+    fn residual_helmholtz_energy_contributions<D: DualNum<f64> + Copy + ScalarOperand>(
+        &self,
+        state: &StateHD<D>,
+    ) -> Vec<(String, D)> {
+        vec![("Hard Sphere".into(), self.hs.helmholtz_energy(state))]
+    }
+}
+
+/// the PC-SAFT association contribution alone, as a `Residual`
+pub struct AssocOnly {
+    p: Arc<PcSaftParameters>,
+    assoc: Association<PcSaftParameters>,
+}
+impl AssocOnly {
+    fn new(p: Arc<PcSaftParameters>, cross: bool, max_iter: usize, tol: f64) -> Self {
+        let assoc = if cross {
+            Association::new_cross_association(&p, &p.association, max_iter, tol)
+        } else {
+            Association::new(&p, &p.association, max_iter, tol)
+        };
+        Self { p, assoc }
+    }
+}
+impl Components for AssocOnly {
+    fn components(&self) -> usize {
+        self.p.m.len()
+    }
+    fn subset(&self, _: &[usize]) -> Self {
+        unimplemented!()
+    }
+}
+impl Residual for AssocOnly {
+    fn compute_max_density(&self, moles: &Array1<f64>) -> f64 {
+        0.5 * moles.sum()
+            / (std::f64::consts::FRAC_PI_6 * &self.p.m * self.p.sigma.mapv(|v| v.powi(3)) * moles).sum()
+    }
+    fn residual_helmholtz_energy_contributions<D: DualNum<f64> + Copy + ScalarOperand>(
+        &self,
+        state: &StateHD<D>,
+    ) -> Vec<(String, D)> {
+        let d = self.p.hs_diameter(state.temperature);
+        vec![("Association".into(), self.assoc.helmholtz_energy(state, &d))]
+    }
+}
+
+// ---------------------------------------------------------------------------------------
+// Typed models (bare structs, not the enum)
+// ---------------------------------------------------------------------------------------
+pub(crate) trait Visitor {
+    type Out;
+    fn visit<E: Residual + 'static>(self, eos: Arc<E>) -> Self::Out;
+}
+
+pub(crate) fn with_typed<V: Visitor>(spec: &ModelSpec, v: V) -> Result<V::Out, String> {
+    let o = &spec.opts;
+    Ok(match spec.family {
+        Family::PengRobinson => v.visit(Arc::new(PengRobinson::new(Arc::new(spec.pr_params()?)))),
+        Family::PcSaft => v.visit(Arc::new(PcSaft::with_options(Arc::new(spec.pcsaft_params()?), o.pcsaft()))),
+        Family::EPcSaft => v.visit(Arc::new(ElectrolytePcSaft::with_options(
+            Arc::new(spec.epcsaft_params()?),
+            o.epc(),
+        ))),
+        Family::GcPcSaft => v.visit(Arc::new(GcPcSaft::with_options(Arc::new(spec.gc_eos_params()?), o.gc()))),
+        Family::Pets => v.visit(Arc::new(Pets::with_options(
+            Arc::new(spec.pets_params()?),
+            PetsOptions { max_eta: o.max_eta },
+        ))),
+        Family::UVTheory => v.visit(Arc::new(UVTheory::with_options(Arc::new(spec.uv_params()?), o.uv()))),
+        Family::SaftVRMie => v.visit(Arc::new(SaftVRMie::with_options(Arc::new(spec.vrmie_params()?), o.vrmie()))),
+        Family::SaftVRQMie => v.visit(Arc::new(SaftVRQMie::with_options(Arc::new(spec.vrq_params()?), o.vrq()))),
+        Family::PcSaftFunctional => v.visit(Arc::new(PcSaftFunctional::with_options(
+            Arc::new(spec.pcsaft_params()?),
+            o.fmt_version(),
+            o.pcsaft(),
+        ))),
+        Family::GcPcSaftFunctional => v.visit(Arc::new(GcPcSaftFunctional::with_options(
+            Arc::new(spec.gc_dft_params()?),
+            o.fmt_version(),
+            o.gc(),
+        ))),
+        Family::PetsFunctional => v.visit(Arc::new(PetsFunctional::with_options(
+            Arc::new(spec.pets_params()?),
+            o.fmt_version(),
+            PetsOptions { max_eta: o.max_eta },
+        ))),
+        Family::FmtFunctional => v.visit(Arc::new(FMTFunctional::new(&spec.fmt_sigma()?, o.fmt_version()))),
+        Family::SaftVRQMieFunctional => v.visit(Arc::new(SaftVRQMieFunctional::with_options(
+            Arc::new(spec.vrq_params()?),
+            o.fmt_version(),
+            o.vrq(),
+        ))),
+    })
+}
+
+// ---------------------------------------------------------------------------------------
+// Properties of one side
+// ---------------------------------------------------------------------------------------
+pub(crate) type Inputs = (Temperature, Volume, Moles<Array1<f64>>);
+
+#[derive(Clone, Debug)]
+pub(crate) struct Props {
+    pub t: f64,
+    pub ntot: f64,
+    pub vol: f64,
+    /// (value, scale) pairs
+    pub a: (f64, f64),
+    pub p: (f64, f64),
+    pub s: (f64, f64),
+    pub dpdv: (f64, f64),
+    pub dpdt: (f64, f64),
+    pub mu: Vec<(f64, f64)>,
+    pub dpdn: Vec<(f64, f64)>,
+    pub dmu: Vec<Vec<(f64, f64)>>,
+    /// names of the contributions and |A_c| / (T N)
+    pub contributions: Vec<(String, f64)>,
+}
+
+/// (sum_c |d A_c|, value of the excluded contribution)
+fn scale_excl<E: Residual>(s: &State<E>, d: PD, exclude: &[&str]) -> (f64, f64) {
+    let v = contrib_values(s, d);
+    let abs = v.iter().map(|(_, x)| x.abs()).sum();
+    let ex = v.iter().filter(|(n, _)| exclude.contains(&n.as_str())).map(|(_, x)| *x).sum();
+    (abs, ex)
+}
+
+/// Public getter values and cancellation-safe scales. The parts of the contributions named in
+/// `exclude` are removed from every value (used to localise a known finding).
+pub(crate) fn props<E: Residual>(eos: &Arc<E>, inp: &Inputs, exclude: &[&str]) -> Result<Props, String> {
+    use Contributions::Residual as RES;
+    let s = State::new_nvt(eos, inp.0, inp.1, &inp.2).map_err(|e| e.to_string())?;
+    let n = eos.components();
+    let t = s.temperature.to_reduced();
+    let ntot = s.moles.to_reduced().sum();
+    let sc = |d: PD| scale_excl(&s, d, exclude);
+    let (sa, xa) = sc(PD::Zeroth);
+    let (sp, xp) = sc(PD::First(DV));
+    let (ss, xs) = sc(PD::First(DT));
+    let (svv, xvv) = sc(PD::Second(DV));
+    let (svt, xvt) = sc(PD::Mixed(DV, DT));
+    let mu_v = s.residual_chemical_potential().to_reduced();
+    let dpdn_v = s.dp_dni(RES).to_reduced();
+    let dmu_v = s.dmu_dni(RES).to_reduced();
+    let mut mu = vec![];
+    let mut dpdn = vec![];
+    let mut dmu = vec![vec![(0.0, 0.0); n]; n];
+    for i in 0..n {
+        let (sn, xn) = sc(PD::First(DN(i)));
+        mu.push((mu_v[i] - xn, sn));
+        let (svn, xvn) = sc(PD::Mixed(DV, DN(i)));
+        dpdn.push((dpdn_v[i] + xvn, svn));
+        for j in i..n {
+            let (snn, xnn) = sc(PD::Mixed(DN(i), DN(j)));
+            dmu[i][j] = (dmu_v[[i, j]] - xnn, snn);
+            dmu[j][i] = (dmu_v[[j, i]] - xnn, snn);
+        }
+    }
+    let contributions = contrib_values(&s, PD::Zeroth)
+        .into_iter()
+        .map(|(nm, v)| (nm, v.abs() / (t * ntot)))
+        .collect();
+    Ok(Props {
+        t,
+        ntot,
+        vol: s.volume.to_reduced(),
+        a: (s.residual_helmholtz_energy().to_reduced() - xa, sa),
+        p: (s.pressure(RES).to_reduced() + xp, sp),
+        s: (s.residual_entropy().to_reduced() + xs, ss),
+        dpdv: (s.dp_dv(RES).to_reduced() + xvv, svv),
+        dpdt: (s.dp_dt(RES).to_reduced() + xvt, svt),
+        mu,
+        dpdn,
+        dmu,
+        contributions,
+    })
+}
+
+/// Compare two sides. `map[k]` = component of the left side that component k of the right side
+/// corresponds to (identity except for split components). `floor` adds `floor x (ideal-gas-like
+/// scale of the quantity)` to the allowed deviation: N T for A, rho T for p, N for S, T for mu, ...
+/// (the association term is evaluated through monomer fractions X in (0,1] that carry an absolute
+/// error of a few eps, i.e. an error relative to N T and not to the association energy itself).
+/// Returns the number of comparisons whose common value exceeds 1e3 x the allowed deviation (a
+/// 0.1 % error would be seen).
+#[allow(clippy::too_many_arguments)]
+pub(crate) fn compare(obs: &mut Obs, key: &str, l: &Props, r: &Props, map: &[usize], tol: Tol, extra_abs_a: f64, floor: f64) -> u32 {
+    let mut sharp = 0u32;
+    let tracked = !key.contains("(probe)") && !key.contains("(attribution)");
+    let mut one = |obs: &mut Obs, what: &str, u: (f64, f64), v: (f64, f64), norm: f64, abs: f64| {
+        let (lo, hi) = (u.1.min(v.1), u.1.max(v.1));
+        let allow = (tol.rel * lo + tol.round * hi) / norm + abs;
+        let d = (u.0 - v.0).abs() / norm;
+        obs.count();
+        let ok = d <= allow && u.0.is_finite() && v.0.is_finite();
+        if tracked {
+            track(&format!("{key}/{}", what.split('[').next().unwrap()), d / allow, d / (lo / norm).max(1e-300));
+        }
+        if !ok {
+            obs.fail(format!(
+                "{key} {what}: left {:e} vs right {:e} (diff {:e} > allowed {:e}; scales {:e} / {:e})",
+                u.0 / norm,
+                v.0 / norm,
+                d,
+                allow,
+                u.1 / norm,
+                v.1 / norm
+            ));
+        }
+        if (u.0.abs() / norm).max(v.0.abs() / norm) > 1e3 * allow {
+            sharp += 1;
+        }
+    };
+    let (t, n, v) = (l.t, l.ntot, l.vol);
+    let nt = t * n;
+    one(obs, "beta A_res/N", l.a, r.a, nt, ATOL_A + extra_abs_a + floor);
+    one(obs, "p_res", l.p, r.p, 1.0, floor * nt / v);
+    one(obs, "S_res", l.s, r.s, 1.0, floor * n);
+    one(obs, "dp_dv", l.dpdv, r.dpdv, 1.0, floor * nt / (v * v));
+    one(obs, "dp_dt", l.dpdt, r.dpdt, 1.0, floor * n / v);
+    for (k, &i) in map.iter().enumerate() {
+        one(obs, &format!("mu_res[{k}]"), l.mu[i], r.mu[k], 1.0, floor * t);
+        one(obs, &format!("dp_dni[{k}]"), l.dpdn[i], r.dpdn[k], 1.0, floor * t / v);
+        for (k2, &j) in map.iter().enumerate() {
+            one(obs, &format!("dmu_dni[{k},{k2}]"), l.dmu[i][j], r.dmu[k][k2], 1.0, floor * t / n);
+        }
+    }
+    sharp
+}
+
+// ---------------------------------------------------------------------------------------
+// Generators
+// ---------------------------------------------------------------------------------------
+fn eos_family(f: Family) -> Family {
+    match f {
+        Family::PcSaftFunctional => Family::PcSaft,
+        Family::GcPcSaftFunctional => Family::GcPcSaft,
+        Family::PetsFunctional => Family::Pets,
+        Family::SaftVRQMieFunctional => Family::SaftVRQMie,
+        other => other,
+    }
+}
+
+pub(crate) fn strip_polar(spec: &mut ModelSpec) {
+    for p in spec.pure.iter_mut() {
+        if let Some(o) = p["model_record"].as_object_mut() {
+            o.remove("mu");
+            o.remove("q");
+        }
+    }
+}
+
+pub(crate) fn mr_f64(p: &Value, key: &str) -> f64 {
+    p["model_record"][key].as_f64().unwrap_or(0.0)
+}
+
+fn decode_pair(pair: Pair) -> impl Fn(&mut Gen) -> Case + Sync {
+    move |g: &mut Gen| {
+        let mut comp = 0;
+        let mut split = 0.5;
+        let mut ig = vec![];
+        let spec = match pair {
+            Pair::DftBulk => {
+                // weights 10:3:2:2:3 — the PC-SAFT functional has the most code that differs (three FMT
+                // versions x pure/mixture paths x polar x association); SAFT-VRQ Mie and gc-PC-SAFT
+                // functionals cost 50-250 ms per pair-state (measured), so they get fewer cases
+                let mut fams = vec![Family::PcSaftFunctional; 10];
+                fams.extend([Family::GcPcSaftFunctional; 3]);
+                fams.extend([Family::PetsFunctional; 2]);
+                fams.extend([Family::SaftVRQMieFunctional; 2]);
+                fams.extend([Family::FmtFunctional; 3]);
+                let mut s = gen_model(g, &GenCfg { families: fams, min_comp: 1, max_comp: 3 });
+                if matches!(s.family, Family::GcPcSaftFunctional | Family::SaftVRQMieFunctional) && s.n() == 3 && g.bool(0.66) {
+                    s = s.subset(&[0, 1]);
+                }
+                if s.family == Family::PcSaftFunctional {
+                    // make sure the dipole-quadrupole cross term is exercised: (1) both moments on
+                    // one component, (2) dipole and quadrupole on different components
+                    match g.index(6) {
+                        4 => {
+                            let k = g.index(s.n());
+                            if mr_f64(&s.pure[k], "mu") == 0.0 {
+                                s.pure[k]["model_record"]["mu"] = json!(g.range(0.5, 4.0));
+                            }
+                            if mr_f64(&s.pure[k], "q") == 0.0 {
+                                s.pure[k]["model_record"]["q"] = json!(g.range(1.0, 8.0));
+                            }
+                            s.source = format!("{}+dq", s.source);
+                        }
+                        5 if s.n() >= 2 => {
+                            if mr_f64(&s.pure[0], "mu") == 0.0 {
+                                s.pure[0]["model_record"]["mu"] = json!(g.range(0.5, 4.0));
+                            }
+                            if mr_f64(&s.pure[1], "q") == 0.0 {
+                                s.pure[1]["model_record"]["q"] = json!(g.range(1.0, 8.0));
+                            }
+                            s.source = format!("{}+d|q", s.source);
+                        }
+                        _ => {}
+                    }
+                }
+                s
+            }
+            Pair::Wrapper => {
+                let s = gen_model(g, &GenCfg::all(3));
+                ig = (0..s.n()).map(|_| g.index(POOLS.dippr.len())).collect();
+                s
+            }
+            Pair::EpcIonFree => {
+                let mut s = gen_model(g, &GenCfg { families: vec![Family::PcSaft], min_comp: 1, max_comp: 3 });
+                strip_polar(&mut s);
+                s
+            }
+            Pair::VrqVsVrMie => {
+                // pure monomers only: for mixtures SAFT-VRQ Mie evaluates d_ij from the ij potential
+                // (non-additive diameters) while SAFT-VR Mie uses d_ij = (d_i + d_j)/2 - a different
+                // physical model by design, not a second implementation of the same one
+                let n = 1;
+                let mut pure = vec![];
+                let mut source = String::from("random");
+                for k in 0..n {
+                    let mr = if g.bool(0.3) {
+                        // shipped monomers of lafitte2013 (methane, CF4)
+                        source = "shipped:lafitte2013".into();
+                        let mono: Vec<&Value> =
+                            POOLS.vrmie.iter().filter(|r| r["model_record"]["m"].as_f64() == Some(1.0)).collect();
+                        mono[g.index(mono.len())]["model_record"].clone()
+                    } else {
+                        json!({"m": 1.0, "sigma": g.range(2.8, 4.8), "epsilon_k": g.range(20.0, 450.0),
+                               "lr": g.range(8.0, 30.0), "la": if g.bool(0.3) { g.range(5.0, 7.0) } else { 6.0 }})
+                    };
+                    pure.push(json!({"identifier": {"name": format!("comp{k}"), "cas": format!("{}-00-{k}", 100 + k)},
+                        "molarweight": g.range(2.0, 150.0), "model_record": mr}));
+                }
+                let mut binary = vec![];
+                for i in 0..n {
+                    for j in i + 1..n {
+                        if g.bool(0.5) {
+                            binary.push((i, j, json!({"k_ij": g.range(-0.1, 0.1)})));
+                        }
+                    }
+                }
+                let mut opts = Opts::default();
+                if g.bool(0.3) {
+                    opts.max_eta = g.range(0.4, 0.6);
+                }
+                opts.inc_nonadd = !g.bool(0.5);
+                ModelSpec { family: Family::SaftVRMie, pure, binary, seg: None, opts, source }
+            }
+            Pair::AssocSplit => {
+                let fam = g.pick(&[
+                    Family::PcSaft,
+                    Family::PcSaftFunctional,
+                    Family::EPcSaft,
+                    Family::SaftVRMie,
+                    Family::GcPcSaft,
+                    Family::GcPcSaftFunctional,
+                ]);
+                let mut s = gen_assoc_spec(g, fam);
+                let assoc: Vec<usize> = (0..s.n()).filter(|&i| s.subset(&[i]).has_association()).collect();
+                comp = if assoc.is_empty() { 0 } else { assoc[g.index(assoc.len())] };
+                split = g.range(0.02, 0.98);
+                if matches!(fam, Family::EPcSaft) {
+                    strip_polar(&mut s);
+                }
+                s
+            }
+            Pair::AssocForced => gen_assoc_spec(g, Family::PcSaft),
+            Pair::HomoGc => gen_homo_gc(g),
+            Pair::PengRobinson => {
+                gen_model(g, &GenCfg { families: vec![Family::PengRobinson], min_comp: 1, max_comp: 3 })
+            }
+        };
+        let state = gen_state(g, spec.n());
+        Case { pair, spec, state, ig, comp, split }
+    }
+}
+
+/// A spec of `fam` with at least one associating component (1-2 components).
+fn gen_assoc_spec(g: &mut Gen, fam: Family) -> ModelSpec {
+    let n = 1 + g.index(2);
+    let opts = {
+        let mut o = Opts::default();
+        if g.bool(0.3) {
+            o.max_eta = g.range(0.4, 0.6);
+        }
+        if g.bool(0.3) {
+            o.max_iter_cross_assoc = g.int(50, 200) as usize;
+            o.tol_cross_assoc = g.log_range(1e-12, 1e-10);
+        }
+        if matches!(fam, Family::PcSaftFunctional | Family::GcPcSaftFunctional) {
+            o.fmt = g.index(3) as u8;
+        }
+        o
+    };
+    match fam {
+        Family::GcPcSaft | Family::GcPcSaftFunctional => {
+            // without the binary group-group k_ij table: those k_ij act between groups of *different*
+            // components only (model definition), so (A,A) is not the same fluid as A there
+            let (sf, bf) = g.pick(&GC_HETERO_TABLES[..2]);
+            let assoc: Vec<&Value> = POOLS
+                .gc_substances
+                .iter()
+                .filter(|r| r["segments"].as_array().unwrap().iter().any(|s| s == "OH" || s == "NH2"))
+                .collect();
+            let mut pure = vec![(*g.pick(&assoc)).clone()];
+            if n == 2 {
+                pure.push(POOLS.gc_substances[g.index(POOLS.gc_substances.len())].clone());
+            }
+            ModelSpec {
+                family: fam,
+                pure,
+                binary: vec![],
+                seg: Some((sf.to_string(), bf.map(|s| s.to_string()))),
+                opts,
+                source: format!("gc:{sf}"),
+            }
+        }
+        Family::SaftVRMie => {
+            let mut pure = vec![];
+            let mut source = String::new();
+            for k in 0..n {
+                if g.bool(0.5) {
+                    source = "shipped:lafitte2013".into();
+                    let pool: Vec<&Value> = POOLS
+                        .vrmie
+                        .iter()
+                        .filter(|r| k > 0 || r["model_record"].get("rc_ab").is_some())
+                        .collect();
+                    pure.push((*g.pick(&pool)).clone());
+                } else {
+                    source = "random".into();
+                    let mut mr = json!({"m": g.range(1.0, 4.0), "sigma": g.range(2.8, 4.8), "epsilon_k": g.range(100.0, 450.0),
+                        "lr": g.range(8.0, 30.0), "la": 6.0});
+                    if k == 0 || g.bool(0.5) {
+                        mr["rc_ab"] = json!(g.range(0.3, 0.45));
+                        mr["epsilon_k_ab"] = json!(g.range(1500.0, 3000.0));
+                        let (na, nb) = [(1.0, 1.0), (2.0, 1.0), (2.0, 2.0)][g.index(3)];
+                        mr["na"] = json!(na);
+                        mr["nb"] = json!(nb);
+                    }
+                    pure.push(json!({"identifier": {"name": format!("comp{k}"), "cas": format!("{}-00-{k}", 100 + k)},
+                        "molarweight": g.range(16.0, 200.0), "model_record": mr}));
+                }
+            }
+            let mut binary = vec![];
+            if n == 2 && g.bool(0.6) {
+                binary.push((0, 1, json!({"k_ij": g.range(-0.1, 0.1)})));
+            }
+            ModelSpec { family: fam, pure, binary, seg: None, opts, source }
+        }
+        _ => {
+            // PC-SAFT records (also used for ePC-SAFT: only records with kappa_ab AND epsilon_k_ab)
+            let mut pure = vec![];
+            let mut source = String::new();
+            for k in 0..n {
+                if g.bool(0.4) {
+                    source = "shipped".into();
+                    // gross2002 (2B), esper2023 (many schemes)
+                    let (_, recs) = &POOLS.pcsaft[[1usize, 8][g.index(2)]];
+                    let pool: Vec<&Value> = recs
+                        .iter()
+                        .filter(|r| {
+                            let m = &r["model_record"];
+                            let full = m.get("kappa_ab").is_some() && m.get("epsilon_k_ab").is_some();
+                            let none = m.get("kappa_ab").is_none() && m.get("epsilon_k_ab").is_none();
+                            if k == 0 {
+                                full && m["na"].as_f64().unwrap_or(0.0) > 0.0 && m["nb"].as_f64().unwrap_or(0.0) > 0.0
+                            } else {
+                                full || none
+                            }
+                        })
+                        .collect();
+                    pure.push((*g.pick(&pool)).clone());
+                } else {
+                    source = "random".into();
+                    let mut mr = json!({"m": g.range(1.0, 6.0), "sigma": g.range(2.5, 4.5), "epsilon_k": g.range(150.0, 400.0)});
+                    if k == 0 || g.bool(0.5) {
+                        mr["kappa_ab"] = json!(g.log_range(1e-3, 0.2));
+                        mr["epsilon_k_ab"] = json!(g.range(1000.0, 3500.0));
+                        let (na, nb, nc) =
+                            [(1.0, 1.0, 0.0), (2.0, 1.0, 0.0), (2.0, 2.0, 0.0), (0.0, 0.0, 1.0), (1.0, 1.0, 1.0)][g.index(5)];
+                        mr["na"] = json!(na);
+                        mr["nb"] = json!(nb);
+                        mr["nc"] = json!(nc);
+                    }
+                    if fam != Family::EPcSaft && g.bool(0.2) {
+                        mr["mu"] = json!(g.range(0.5, 3.0));
+                    }
+                    pure.push(json!({"identifier": {"name": format!("comp{k}"), "cas": format!("{}-00-{k}", 100 + k)},
+                        "molarweight": g.range(16.0, 200.0), "model_record": mr}));
+                }
+            }
+            let mut binary = vec![];
+            if n == 2 && g.bool(0.6) {
+                let k = g.range(-0.1, 0.1);
+                binary.push((0, 1, if fam == Family::EPcSaft { json!({"k_ij": [k, 0.0, 0.0, 0.0]}) } else { json!({"k_ij": k}) }));
+            }
+            ModelSpec { family: fam, pure, binary, seg: None, opts, source }
+        }
+    }
+}
+
+const HOMO_TABLES: [(&str, Option<&str>); 4] = [
+    ("sauer2014_homo.json", None),
+    ("loetgeringlin2015_homo.json", None),
+    ("rehner2023_homo.json", None),
+    ("rehner2023_homo.json", Some("rehner2023_homo_binary.json")),
+];
+
+fn gen_homo_gc(g: &mut Gen) -> ModelSpec {
+    let (sf, bf) = g.pick(&HOMO_TABLES);
+    let n = 1 + g.index(3);
+    let names: Vec<String> = load_json(&format!("pcsaft/{sf}"))
+        .iter()
+        .map(|r| r["identifier"].as_str().unwrap().to_string())
+        .collect();
+    let mut pure = vec![];
+    let mut source = format!("homo:{sf}{}", if bf.is_some() { "+binary" } else { "" });
+    for k in 0..n {
+        if g.bool(0.6) {
+            pure.push(POOLS.gc_substances[g.index(POOLS.gc_substances.len())].clone());
+        } else {
+            // random chemical record: 1-8 segments, non-polar groups freely, at most `npol` polar /
+            // associating groups (two of them => from_segments must reject the record)
+            source = format!("{source}+random");
+            let nseg = 1 + g.index(8);
+            let npol = g.index(3).min(nseg);
+            let mut segs: Vec<String> = vec![];
+            for s in 0..nseg {
+                let name = if s < npol {
+                    names[14 + g.index(names.len() - 14)].clone()
+                } else {
+                    // ">C<" (index 3) has negative m: allow it once per molecule only
+                    let i = g.index(14);
+                    if i == 3 && segs.iter().any(|x| x == ">C<") {
+                        names[1].clone()
+                    } else {
+                        names[i].clone()
+                    }
+                };
+                segs.push(name);
+            }
+            // the '>C<' group has m = -0.67: keep the molecule's segment number above 0.5
+            let table = load_json_cached(sf);
+            let m_tot: f64 = segs
+                .iter()
+                .map(|s| table.iter().find(|r| r["identifier"] == s.as_str()).map_or(0.0, |r| r["model_record"]["m"].as_f64().unwrap()))
+                .sum();
+            if m_tot < 0.5 {
+                for s in segs.iter_mut() {
+                    if s == ">C<" {
+                        *s = names[1].clone();
+                    }
+                }
+            }
+            pure.push(json!({"identifier": {"name": format!("rnd{k}"), "cas": format!("{}-11-{k}", 200 + k)}, "segments": segs}));
+        }
+    }
+    ModelSpec {
+        family: Family::PcSaft,
+        pure,
+        binary: vec![],
+        seg: Some((sf.to_string(), bf.map(|s| s.to_string()))),
+        opts: Opts::default(),
+        source,
+    }
+}
+
+// ---------------------------------------------------------------------------------------
+// Reference implementation of the homosegmented group-contribution combining rules
+// (Sauer et al. 2014, eqs. for m, sigma, epsilon; documented in src/pcsaft/parameters.rs and
+// feos-core/src/parameter/mod.rs):
+//   m = sum_a n_a m_a ; m sigma^3 = sum_a n_a m_a sigma_a^3 ; m eps = sum_a n_a m_a eps_a ;
+//   MW = sum_a n_a MW_a ; mu, Q, kappa_ab, eps_ab, na, nb, nc: those of the single polar /
+//   associating group (more than one such group is rejected) ;
+//   k_ij = sum_ab n_a n_b k_ab / sum_ab n_a n_b over group a of molecule i and b of molecule j.
+// ---------------------------------------------------------------------------------------
+struct HomoRef {
+    pure: Vec<Value>,
+    binary: Vec<(usize, usize, Value)>,
+    /// number of polar/associating groups per molecule
+    npolar: Vec<usize>,
+}
+
+fn homo_reference(spec: &ModelSpec) -> Result<HomoRef, String> {
+    let (sf, bf) = spec.seg.clone().ok_or("no segment file")?;
+    let segs = load_json(&format!("pcsaft/{sf}"));
+    let find = |name: &str| segs.iter().find(|s| s["identifier"].as_str() == Some(name));
+    let mut pure = vec![];
+    let mut npolar = vec![];
+    let mut counts: Vec<Vec<(String, f64)>> = vec![];
+    for c in &spec.pure {
+        let names: Vec<String> = c["segments"].as_array().unwrap().iter().map(|s| s.as_str().unwrap().to_string()).collect();
+        // counts in order of first appearance
+        let mut cnt: Vec<(String, f64)> = vec![];
+        for nm in &names {
+            match cnt.iter_mut().find(|(k, _)| k == nm) {
+                Some(e) => e.1 += 1.0,
+                None => cnt.push((nm.clone(), 1.0)),
+            }
+        }
+        let (mut m, mut ms3, mut me, mut mw) = (0.0, 0.0, 0.0, 0.0);
+        let mut polar = 0usize;
+        let mut mr = json!({});
+        for (nm, k) in &cnt {
+            let s = find(nm).ok_or(format!("segment {nm} not in table"))?;
+            let r = &s["model_record"];
+            let (mi, si, ei) = (r["m"].as_f64().unwrap(), r["sigma"].as_f64().unwrap(), r["epsilon_k"].as_f64().unwrap());
+            m += k * mi;
+            ms3 += k * mi * si.powi(3);
+            me += k * mi * ei;
+            mw += k * s["molarweight"].as_f64().unwrap();
+            let nsites = r["na"].as_f64().unwrap_or(0.0) + r["nb"].as_f64().unwrap_or(0.0) + r["nc"].as_f64().unwrap_or(0.0);
+            let is_polar = r.get("mu").is_some() || r.get("q").is_some() || (r.get("kappa_ab").is_some() && nsites > 0.0);
+            if is_polar {
+                polar += *k as usize;
+                for key in ["mu", "q", "kappa_ab", "epsilon_k_ab", "na", "nb", "nc"] {
+                    if let Some(v) = r.get(key) {
+                        mr[key] = v.clone();
+                    }
+                }
+            }
+        }
+        mr["m"] = json!(m);
+        mr["sigma"] = json!((ms3 / m).cbrt());
+        mr["epsilon_k"] = json!(me / m);
+        pure.push(json!({"identifier": c["identifier"], "molarweight": mw, "model_record": mr}));
+        npolar.push(polar);
+        counts.push(cnt);
+    }
+    let mut binary = vec![];
+    if let Some(bf) = bf {
+        let br = load_json(&format!("pcsaft/{bf}"));
+        let kab = |a: &str, b: &str| -> f64 {
+            br.iter()
+                .find(|r| {
+                    let (i1, i2) = (r["id1"].as_str().unwrap(), r["id2"].as_str().unwrap());
+                    (i1 == a && i2 == b) || (i1 == b && i2 == a)
+                })
+                .map(|r| r["model_record"].as_f64().unwrap())
+                .unwrap_or(0.0)
+        };
+        for i in 0..counts.len() {
+            for j in i + 1..counts.len() {
+                let (mut num, mut den) = (0.0, 0.0);
+                for (a, na) in &counts[i] {
+                    for (b, nb) in &counts[j] {
+                        num += na * nb * kab(a, b);
+                        den += na * nb;
+                    }
+                }
+                binary.push((i, j, json!({"k_ij": num / den})));
+            }
+        }
+    }
+    Ok(HomoRef { pure, binary, npolar })
+}
+
+fn homo_left_params(spec: &ModelSpec) -> Result<PcSaftParameters, String> {
+    let (sf, bf) = spec.seg.clone().ok_or("no segment file")?;
+    let segs: Vec<SegmentRecord<PcSaftRecord>> =
+        SegmentRecord::from_json(params_dir().join("pcsaft").join(&sf)).map_err(|e| e.to_string())?;
+    let bin: Option<Vec<BinaryRecord<String, f64>>> = match bf {
+        Some(b) => Some(
+            load_json(&format!("pcsaft/{b}"))
+                .iter()
+                .map(|v| serde_json::from_value(v.clone()).map_err(|e| e.to_string()))
+                .collect::<Result<Vec<_>, _>>()?,
+        ),
+        None => None,
+    };
+    let chem: Vec<ChemicalRecord> = spec.chemical_records()?;
+    PcSaftParameters::from_segments(chem, segs, bin).map_err(|e| format!("from_segments: {e}"))
+}
+
+// ---------------------------------------------------------------------------------------
+// Known-finding signatures (predicates over the case; enabled by known_findings.json)
+// ---------------------------------------------------------------------------------------
+pub(crate) struct Known {
+    pub id: &'static str,
+    /// contributions removed from the left / right side when the rest is asserted
+    pub left_excl: &'static [&'static str],
+    pub right_excl: &'static [&'static str],
+    /// build the right side with DQVariants::DQ35 instead of the requested variant
+    pub right_dq35: bool,
+}
+
+const EOS_ATT: [&str; 4] = ["Dispersion", "Dipole", "Quadrupole", "DipoleQuadrupole"];
+
+/// does the PC-SAFT functional take the mixture code path (FMTContribution + ChainFunctional +
+/// AttractiveFunctional + Association) rather than the pure-component functionals?
+pub(crate) fn pcsaft_mixture_path(spec: &ModelSpec) -> bool {
+    spec.family == Family::PcSaftFunctional && (spec.n() > 1 || spec.opts.fmt == 1)
+}
+
+/// Association sites as `AssociationParameters::new` builds them: (index, sigma, na, nb, nc) of
+/// every component (PC-SAFT) or segment (heterosegmented gc-PC-SAFT functional) with sites.
+pub(crate) fn assoc_sites(spec: &ModelSpec) -> Vec<(usize, f64, f64, f64, f64)> {
+    let mut v = vec![];
+    match spec.family {
+        Family::GcPcSaftFunctional => {
+            let Some((sf, _)) = &spec.seg else { return v };
+            let table = load_json_cached(sf);
+            let mut k = 0;
+            for p in &spec.pure {
+                for s in p["segments"].as_array().into_iter().flatten() {
+                    if let Some(r) = table.iter().find(|r| r["identifier"] == *s) {
+                        let m = &r["model_record"];
+                        let f = |key: &str| m[key].as_f64().unwrap_or(0.0);
+                        if f("na") + f("nb") + f("nc") > 0.0 {
+                            v.push((k, f("sigma"), f("na"), f("nb"), f("nc")));
+                        }
+                    }
+                    k += 1;
+                }
+            }
+        }
+        _ => {
+            for (k, p) in spec.pure.iter().enumerate() {
+                let f = |key: &str| mr_f64(p, key);
+                if f("na") + f("nb") + f("nc") > 0.0 {
+                    v.push((k, f("sigma"), f("na"), f("nb"), f("nc")));
+                }
+            }
+        }
+    }
+    v
+}
+
+fn sigma0(spec: &ModelSpec) -> f64 {
+    match spec.family {
+        Family::GcPcSaftFunctional => {
+            let Some((sf, _)) = &spec.seg else { return 0.0 };
+            let table = load_json_cached(sf);
+            let first = &spec.pure[0]["segments"][0];
+            table
+                .iter()
+                .find(|r| r["identifier"] == *first)
+                .map(|r| r["model_record"]["sigma"].as_f64().unwrap_or(0.0))
+                .unwrap_or(0.0)
+        }
+        _ => mr_f64(&spec.pure[0], "sigma"),
+    }
+}
+
+/// (number of A-site types x number of B-site types, number of C-site types): selects the closed
+/// form ((1,0), (0,1), (1,1)) or the iterative solver in `Association`.
+pub(crate) fn assoc_path(sites: &[(usize, f64, f64, f64, f64)]) -> (usize, usize) {
+    let a = sites.iter().filter(|s| s.2 > 0.0).count();
+    let b = sites.iter().filter(|s| s.3 > 0.0).count();
+    let c = sites.iter().filter(|s| s.4 > 0.0).count();
+    (a * b, c)
+}
+
+pub(crate) fn dft_signatures(spec: &ModelSpec) -> Vec<Known> {
+    let mut k = vec![];
+    let mixture = pcsaft_mixture_path(spec);
+    // F8: pure-component PC-SAFT functional on the WhiteBear / AntiSymWhiteBear path
+    // (`PureAttFunctional`) for a record with both a dipole and a quadrupole moment.
+    if spec.family == Family::PcSaftFunctional
+        && !mixture
+        && mr_f64(&spec.pure[0], "mu") != 0.0
+        && mr_f64(&spec.pure[0], "q") != 0.0
+    {
+        k.push(Known {
+            id: "C08/pcsaft-functional-pure-dipole-quadrupole",
+            left_excl: &[],
+            right_excl: &["DipoleQuadrupole"],
+            right_dq35: false,
+        });
+    }
+    // pure-component path adds the chain functional only for m > 1 (mixture path and equation of
+    // state: m != 1) but the ideal-chain term (m - 1) rho (ln rho - 1) always
+    if spec.family == Family::PcSaftFunctional && !mixture && mr_f64(&spec.pure[0], "m") < 1.0 {
+        k.push(Known {
+            id: "C08/pcsaft-functional-pure-chain-m-below-1",
+            left_excl: &["Ideal chain", "Pure chain"],
+            right_excl: &["Hard Chain"],
+            right_dq35: false,
+        });
+    }
+    // gc-PC-SAFT functional has no dipole contribution: a component with a dipolar group.
+    if spec.family == Family::GcPcSaftFunctional {
+        if let Some((sf, _)) = &spec.seg {
+            let table = load_json_cached(sf);
+            let dipolar = spec.pure.iter().any(|p| {
+                p["segments"].as_array().map_or(false, |a| {
+                    a.iter().any(|s| {
+                        table
+                            .iter()
+                            .any(|r| r["identifier"] == *s && r["model_record"]["mu"].as_f64().unwrap_or(0.0) != 0.0)
+                    })
+                })
+            });
+            if dipolar {
+                k.push(Known {
+                    id: "C08/gc-pcsaft-functional-no-dipole",
+                    left_excl: &[],
+                    right_excl: &["Dipole"],
+                    right_dq35: false,
+                });
+            }
+        }
+    }
+    if mixture {
+        let dip: Vec<f64> = spec.pure.iter().filter(|p| mr_f64(p, "mu") != 0.0).map(|p| mr_f64(p, "sigma")).collect();
+        let quad: Vec<f64> = spec.pure.iter().filter(|p| mr_f64(p, "q") != 0.0).map(|p| mr_f64(p, "sigma")).collect();
+        // the functional implements DQ35 only: `PcSaftOptions::dq_variant` is ignored
+        if spec.opts.dq44 && dip.iter().any(|a| quad.iter().any(|b| a != b)) {
+            k.push(Known {
+                id: "C08/pcsaft-functional-ignores-dq-variant",
+                left_excl: &[],
+                right_excl: &[],
+                right_dq35: true,
+            });
+        }
+        // quadrupole-quadrupole pair term between two different components
+        if quad.len() >= 2 {
+            k.push(Known {
+                id: "C08/pcsaft-functional-quadrupole-cross-term",
+                left_excl: &["Attractive functional"],
+                right_excl: &EOS_ATT,
+                right_dq35: false,
+            });
+        }
+    }
+    // association as a functional contribution (src/association/dft.rs)
+    if mixture || spec.family == Family::GcPcSaftFunctional {
+        let sites = assoc_sites(spec);
+        let (ab, c) = assoc_path(&sites);
+        let s0 = sigma0(spec);
+        match (ab, c) {
+            (0, 0) => {}
+            (1, 0) | (0, 1) | (1, 1) => {
+                // closed form evaluates association_strength(T, 0, 0, ..): wrong sigma unless the
+                // associating component / segment has index 0 (or the same sigma as index 0)
+                let mut wrong = false;
+                if ab == 1 {
+                    let sa = sites.iter().find(|s| s.2 > 0.0).unwrap();
+                    let sb = sites.iter().find(|s| s.3 > 0.0).unwrap();
+                    wrong |= sa.1 * sb.1 != s0 * s0;
+                }
+                if c == 1 {
+                    let sc = sites.iter().find(|s| s.4 > 0.0).unwrap();
+                    wrong |= sc.1 != s0;
+                }
+                if wrong {
+                    k.push(Known {
+                        id: "C08/association-functional-strength-of-component-0",
+                        left_excl: &["Association"],
+                        right_excl: &["Association"],
+                        right_dq35: false,
+                    });
+                }
+            }
+            (_, c) if c > 0 => {
+                // iterative path of the functional contribution leaves the C sites out
+                k.push(Known {
+                    id: "C08/association-functional-drops-c-sites",
+                    left_excl: &["Association"],
+                    right_excl: &["Association"],
+                    right_dq35: false,
+                });
+            }
+            _ => {}
+        }
+    }
+    k
+}
+
+static JSON_CACHE: Mutex<BTreeMap<String, Arc<Vec<Value>>>> = Mutex::new(BTreeMap::new());
+pub(crate) fn load_json_cached(file: &str) -> Arc<Vec<Value>> {
+    let mut c = JSON_CACHE.lock().unwrap();
+    c.entry(file.to_string())
+        .or_insert_with(|| Arc::new(load_json(&format!("pcsaft/{file}"))))
+        .clone()
+}
+
+
+/// Conditioning of the association term: an upper estimate of max_i rho_i Delta_ii (site density x
+/// association strength). The closed-form monomer fractions 2/(sqrt(..) + ..) and the Newton
+/// solver lose ~eps x rho Delta relative accuracy when association is strong (X -> 0); measured
+/// 2.4e-8 relative difference of dS_assoc between functional and equation of state at rho Delta = 2e8.
+pub(crate) fn assoc_stiffness(spec: &ModelSpec, t: f64, rho: f64, x: &[f64], eta: f64) -> f64 {
+    let eta = eta.clamp(0.0, 0.7);
+    let g = (1.0 - 0.5 * eta) / (1.0 - eta).powi(3);
+    let mut worst: f64 = 0.0;
+    let mut add = |comp: usize, sigma: f64, kappa: f64, eps_ab: f64, nsites: f64| {
+        let xi = if comp == usize::MAX { 1.0 } else { x[comp.min(x.len() - 1)] };
+        let d = ((eps_ab / t).exp() - 1.0) * kappa * sigma.powi(3) * g * rho * xi * nsites;
+        if d.is_finite() {
+            worst = worst.max(d);
+        } else {
+            worst = f64::INFINITY;
+        }
+    };
+    match spec.family {
+        Family::GcPcSaft | Family::GcPcSaftFunctional => {
+            if let Some((sf, _)) = &spec.seg {
+                let table = load_json_cached(sf);
+                for (c, p) in spec.pure.iter().enumerate() {
+                    for s in p["segments"].as_array().into_iter().flatten() {
+                        if let Some(r) = table.iter().find(|r| r["identifier"] == *s) {
+                            let m = &r["model_record"];
+                            let f = |k: &str| m[k].as_f64().unwrap_or(0.0);
+                            let ns = f("na") + f("nb") + f("nc");
+                            if ns > 0.0 {
+                                add(c, f("sigma"), f("kappa_ab"), f("epsilon_k_ab").max(2500.0), ns);
+                            }
+                        }
+                    }
+                }
+            }
+        }
+        _ => {
+            let emax = spec.pure.iter().map(|p| mr_f64(p, "epsilon_k_ab")).fold(0.0, f64::max);
+            for (c, p) in spec.pure.iter().enumerate() {
+                let ns = mr_f64(p, "na") + mr_f64(p, "nb") + mr_f64(p, "nc");
+                if ns > 0.0 {
+                    // cross association can pair the sites of this component with a stronger partner
+                    let kappa = if p["model_record"].get("rc_ab").is_some() { 0.1 } else { mr_f64(p, "kappa_ab") };
+                    add(c, mr_f64(p, "sigma"), kappa, emax, ns);
+                }
+            }
+            for (_, _, b) in &spec.binary {
+                if let (Some(k), Some(e)) = (b["kappa_ab"].as_f64(), b["epsilon_k_ab"].as_f64()) {
+                    // binary association override: strength of the pair, total density as bound
+                    add(usize::MAX, 4.5, k, e, 2.0);
+                }
+            }
+        }
+    }
+    worst
+}
+
+/// tolerance of a pair whose members both evaluate an association term
+pub(crate) fn with_stiffness(base: Tol, stiffness: f64) -> Tol {
+    Tol { rel: base.rel + 1e-14 * stiffness, round: base.round }
+}
+
+// ---------------------------------------------------------------------------------------
+// Check
+// ---------------------------------------------------------------------------------------
+pub(crate) fn density_class(f_eta: f64) -> &'static str {
+    if f_eta < 1e-4 {
+        "eta<1e-4"
+    } else if f_eta < 1e-2 {
+        "eta 1e-4..1e-2"
+    } else if f_eta < 0.2 {
+        "eta 1e-2..0.2"
+    } else {
+        "dense"
+    }
+}
+
+struct PropsOf<'a> {
+    inp: &'a Inputs,
+    ig: Option<IdealGasModel>,
+}
+impl Visitor for PropsOf<'_> {
+    /// (bare, wrapped in EquationOfState)
+    type Out = (Result<Props, String>, Option<Result<Props, String>>);
+    fn visit<E: Residual + 'static>(self, eos: Arc<E>) -> Self::Out {
+        let bare = props(&eos, self.inp, &[]);
+        let wrapped = self.ig.map(|ig| {
+            let full = Arc::new(EquationOfState::new(Arc::new(ig), eos.clone()));
+            props(&full, self.inp, &[])
+        });
+        (bare, wrapped)
+    }
+}
+
+macro_rules! try_discard {
+    ($obs:expr, $what:expr, $e:expr) => {
+        match $e {
+            Ok(v) => v,
+            Err(e) => {
+                let e: String = e;
+                $obs.discard(format!("{}:{}", $what, e.chars().take(48).collect::<String>()));
+                return;
+            }
+        }
+    };
+}
+
+pub fn check(case: &Case, obs: &mut Obs) {
+    let spec = &case.spec;
+    let pair = case.pair;
+    obs.class(format!("{pair:?}"));
+    obs.class(format!("{pair:?}/n={}", spec.n()));
+    obs.class(format!("{pair:?}/{}", density_class(case.state.f_eta)));
+    let key = format!("{pair:?}");
+    match pair {
+        Pair::DftBulk => check_dft(case, obs, &key),
+        Pair::Wrapper => check_wrapper(case, obs, &key),
+        Pair::EpcIonFree => check_epc(case, obs, &key),
+        Pair::VrqVsVrMie => check_vrq(case, obs, &key),
+        Pair::AssocSplit => check_split(case, obs, &key),
+        Pair::AssocForced => check_forced(case, obs, &key),
+        Pair::HomoGc => check_homo(case, obs, &key),
+        Pair::PengRobinson => check_pr(case, obs, &key),
+    }
+}
+
+pub(crate) fn feature_classes(obs: &mut Obs, key: &str, spec: &ModelSpec, p: &Props) {
+    for (name, v) in &p.contributions {
+        if *v > 0.0 {
+            obs.class(format!("{key}/contribution:{name}"));
+        }
+    }
+    if spec.has_association() {
+        obs.class(format!("{key}/assoc"));
+    }
+    if spec.has_polar() {
+        obs.class(format!("{key}/polar"));
+    }
+}
+
+fn check_dft(case: &Case, obs: &mut Obs, key: &str) {
+    let spec = &case.spec;
+    obs.class(format!("{key}/{:?}/fmt{}", spec.family, spec.opts.fmt));
+    let left = try_discard!(obs, "build", spec.build());
+    let inp = try_discard!(obs, "inputs", state_inputs(spec, &left, &case.state));
+    let l = try_discard!(obs, "left state", props(&left, &inp, &[]));
+    if !l.a.0.is_finite() {
+        obs.discard(format!("non-finite A_res:{:?}", spec.family));
+        return;
+    }
+    let map: Vec<usize> = (0..spec.n()).collect();
+    // right side: the equation of state of the same records and options
+    if spec.family == Family::FmtFunctional {
+        let hs = Arc::new(HsEos::new(try_discard!(obs, "sigma", spec.fmt_sigma())));
+        let r = try_discard!(obs, "right state", props(&hs, &inp, &[]));
+        feature_classes(obs, key, spec, &r);
+        if compare(obs, key, &l, &r, &map, TOL_IMPL, 0.0, 0.0) >= 5 {
+            obs.nontrivial();
+        }
+        return;
+    }
+    let mut rs = spec.clone();
+    rs.family = eos_family(spec.family);
+    let right = try_discard!(obs, "build right", rs.build());
+    let r = try_discard!(obs, "right state", props(&right, &inp, &[]));
+    if !r.a.0.is_finite() && spec.has_association() {
+        obs.discard(format!("non-finite A_res of the equation of state (cross-association solver not converged):{:?}", rs.family));
+        return;
+    }
+    feature_classes(obs, key, spec, &r);
+    if pcsaft_mixture_path(spec) {
+        obs.class(format!("{key}/PcSaftFunctional mixture path"));
+    } else if spec.family == Family::PcSaftFunctional {
+        obs.class(format!("{key}/PcSaftFunctional pure path"));
+    }
+    // only findings listed as open may mask: a fixed entry suppresses nothing
+    let mut sigs = dft_signatures(spec);
+    sigs.retain(|k| crate::engine::known_open(k.id));
+    let xs: Vec<f64> = inp.2.to_reduced().iter().map(|n| n / l.ntot).collect();
+    let stiff = assoc_stiffness(spec, l.t, l.ntot / l.vol, &xs, case.state.f_eta * spec.opts.max_eta);
+    let tol_dft = with_stiffness(TOL_IMPL, stiff);
+    if stiff > 1e4 {
+        obs.class(format!("{key}/strong association: rho Delta > 1e4 (tolerance widened)"));
+    }
+    let mut probe = Obs::default();
+    let pkey = if sigs.is_empty() { key.to_string() } else { format!("{key}(probe)") };
+    let sharp = compare(&mut probe, &pkey, &l, &r, &map, tol_dft, 0.0, 0.0);
+    if probe.fails.is_empty() || sigs.is_empty() {
+        obs.comparisons += probe.comparisons;
+        for f in probe.fails {
+            obs.fail(f);
+        }
+        if sharp >= 5 {
+            obs.nontrivial();
+        }
+        return;
+    }
+    // the pair disagrees and the case matches at least one known-finding signature: attribute the
+    // failure, then assert the rest of the model (references without the affected contributions)
+    let msg = probe.fails[0].clone();
+    let reference = |ks: &[&Known]| -> Result<(Props, Props), String> {
+        let lx: Vec<&str> = ks.iter().flat_map(|k| k.left_excl.iter().copied()).collect();
+        let rx: Vec<&str> = ks.iter().flat_map(|k| k.right_excl.iter().copied()).collect();
+        let rr = if ks.iter().any(|k| k.right_dq35) {
+            let mut rs35 = rs.clone();
+            rs35.opts.dq44 = false;
+            rs35.build()?
+        } else {
+            right.clone()
+        };
+        Ok((props(&left, &inp, &lx)?, props(&rr, &inp, &rx)?))
+    };
+    let mut attributed = false;
+    for k in &sigs {
+        let (lx, rx) = try_discard!(obs, "reference", reference(&[k]));
+        let mut o = Obs::default();
+        compare(&mut o, &format!("{key}(attribution)"), &lx, &rx, &map, tol_dft, 0.0, 0.0);
+        if o.fails.is_empty() {
+            obs.class(format!("{key}/signature:{}", k.id));
+            obs.known_or_fail(k.id, msg.clone());
+            attributed = true;
+            break;
+        }
+    }
+    if !attributed {
+        for k in &sigs {
+            obs.class(format!("{key}/signature:{}", k.id));
+            obs.known_or_fail(k.id, msg.clone());
+        }
+    }
+    let all: Vec<&Known> = sigs.iter().collect();
+    let (lx, rx) = try_discard!(obs, "reference", reference(&all));
+    let sharp = compare(obs, &format!("{key}(masked)"), &lx, &rx, &map, tol_dft, 0.0, 0.0);
+    if sharp >= 5 {
+        obs.nontrivial();
+    }
+}
+
+fn check_wrapper(case: &Case, obs: &mut Obs, key: &str) {
+    let spec = &case.spec;
+    obs.class(format!("{key}/{:?}", spec.family));
+    let en = try_discard!(obs, "build", spec.build());
+    let inp = try_discard!(obs, "inputs", state_inputs(spec, &en, &case.state));
+    let e = try_discard!(obs, "enum state", props(&en, &inp, &[]));
+    if !e.a.0.is_finite() {
+        obs.discard(format!("non-finite A_res:{:?}", spec.family));
+        return;
+    }
+    let ig = try_discard!(obs, "ig", dippr_model(&case.ig));
+    let (bare, wrapped) = try_discard!(obs, "typed build", with_typed(spec, PropsOf { inp: &inp, ig: Some(ig) }));
+    let bare = try_discard!(obs, "bare state", bare);
+    let wrapped = try_discard!(obs, "wrapped state", wrapped.unwrap());
+    let map: Vec<usize> = (0..spec.n()).collect();
+    let tol = if matches!(spec.family, Family::GcPcSaft | Family::GcPcSaftFunctional) { TOL_GC } else { TOL_SAME };
+    let s1 = compare(obs, &format!("{key}/enum"), &e, &bare, &map, tol, 0.0, 0.0);
+    let s2 = compare(obs, &format!("{key}/EquationOfState"), &wrapped, &bare, &map, tol, 0.0, 0.0);
+    // full model wrapped in the enum inside EquationOfState as well
+    let ig2 = try_discard!(obs, "ig", dippr_model(&case.ig));
+    let both = full_model(ig2, en.clone());
+    let b = try_discard!(obs, "enum+EquationOfState state", props(&both, &inp, &[]));
+    compare(obs, &format!("{key}/enum-in-EquationOfState"), &b, &bare, &map, tol, 0.0, 0.0);
+    if s1 >= 5 && s2 >= 5 {
+        obs.nontrivial();
+    }
+}
+
+/// PC-SAFT spec -> ePC-SAFT spec of the same (non-polar, ion-free) records
+fn to_epc(spec: &ModelSpec) -> ModelSpec {
+    let mut s = spec.clone();
+    s.family = Family::EPcSaft;
+    s.binary = spec
+        .binary
+        .iter()
+        .map(|(i, j, b)| {
+            let mut e = b.clone();
+            e["k_ij"] = json!([b["k_ij"].as_f64().unwrap_or(0.0), 0.0, 0.0, 0.0]);
+            (*i, *j, e)
+        })
+        .collect();
+    s
+}
+
+/// records that ePC-SAFT cannot express: association sites without both kappa_ab and epsilon_k_ab
+fn epc_expressible(spec: &ModelSpec) -> bool {
+    spec.pure.iter().all(|p| {
+        let m = &p["model_record"];
+        let sites = mr_f64(p, "na") + mr_f64(p, "nb") + mr_f64(p, "nc");
+        let (k, e) = (m.get("kappa_ab").is_some(), m.get("epsilon_k_ab").is_some());
+        (k && e) || (!k && !e && sites == 0.0)
+    })
+}
+
+fn check_epc(case: &Case, obs: &mut Obs, key: &str) {
+    let spec = &case.spec;
+    if !epc_expressible(spec) {
+        obs.discard("record with association sites but without kappa_ab/epsilon_k_ab (induced association): not expressible in ePC-SAFT");
+        return;
+    }
+    obs.class(format!("{key}/{}", spec.source.split(':').next().unwrap()));
+    let left = try_discard!(obs, "build", spec.build());
+    let inp = try_discard!(obs, "inputs", state_inputs(spec, &left, &case.state));
+    let l = try_discard!(obs, "left state", props(&left, &inp, &[]));
+    let es = to_epc(spec);
+    let right = try_discard!(obs, "build epc", es.build());
+    let r = try_discard!(obs, "right state", props(&right, &inp, &[]));
+    feature_classes(obs, key, spec, &l);
+    if spec.binary.iter().any(|(_, _, b)| b["k_ij"].as_f64().unwrap_or(0.0) != 0.0) {
+        obs.class(format!("{key}/k_ij"));
+    }
+    if spec.binary.iter().any(|(_, _, b)| b.get("kappa_ab").is_some()) {
+        obs.class(format!("{key}/binary association override"));
+    }
+    let map: Vec<usize> = (0..spec.n()).collect();
+    // The two models perform the same arithmetic up to 1-ulp differences (e.g. sigma^1.5 through
+    // f64::powf vs the dual-number powf). With association these are amplified by the conditioning of
+    // the monomer-fraction formulas (~eps x rho Delta, see assoc_stiffness) and, on the iterative
+    // path, by a Newton iteration that stops one step earlier or later (solver tolerance).
+    let xs: Vec<f64> = case.state.x.clone();
+    let stiff = assoc_stiffness(spec, l.t, l.ntot / l.vol, &xs, case.state.f_eta * spec.opts.max_eta);
+    let tol = if spec.has_association() {
+        let t = with_stiffness(TOL_SAME, stiff);
+        if spec.n_assoc_components() > 1 { Tol { rel: t.rel.max(TOL_ASSOC.rel), round: t.round } } else { t }
+    } else {
+        TOL_SAME
+    };
+    let sharp = compare(obs, key, &l, &r, &map, tol, 0.0, 0.0);
+    if sharp >= 5 {
+        obs.nontrivial();
+    }
+}
+
+fn check_vrq(case: &Case, obs: &mut Obs, key: &str) {
+    let spec = &case.spec; // SAFT-VR Mie, m = 1
+    let left = try_discard!(obs, "build", spec.build());
+    let inp = try_discard!(obs, "inputs", state_inputs(spec, &left, &case.state));
+    let l = try_discard!(obs, "left state", props(&left, &inp, &[]));
+    let mut qs = spec.clone();
+    qs.family = Family::SaftVRQMie;
+    for p in qs.pure.iter_mut() {
+        p["model_record"]["fh"] = json!(0);
+    }
+    qs.binary = spec
+        .binary
+        .iter()
+        .map(|(i, j, b)| (*i, *j, json!({"k_ij": b["k_ij"].as_f64().unwrap_or(0.0), "l_ij": 0.0})))
+        .collect();
+    let right = try_discard!(obs, "build vrq", qs.build());
+    let r = try_discard!(obs, "right state", props(&right, &inp, &[]));
+    obs.class(format!("{key}/{}", spec.source));
+    if spec.n() > 1 {
+        obs.class(format!("{key}/inc_nonadd={}", spec.opts.inc_nonadd));
+    }
+    let map: Vec<usize> = (0..spec.n()).collect();
+    let sharp = compare(obs, key, &l, &r, &map, TOL_VRQ, 0.0, 0.0);
+    if sharp >= 5 {
+        obs.nontrivial();
+    }
+}
+/// SAFT-VRQ Mie (FH0) and SAFT-VR Mie compute the Barker-Henderson diameter with different
+/// quadratures (21-point Kronrod from a Newton-located lower limit vs 10-point Gauss-Legendre):
+/// measured <= 1.5e-5 of the scale on T-derivatives, 7e-7 on beta A/N (see `calibration` in the evidence)
+const TOL_VRQ: Tol = Tol { rel: 1e-3, round: 1e-12 };
+
+/// spec with component `comp` duplicated (appended as last component)
+pub(crate) fn split_spec(spec: &ModelSpec, comp: usize) -> ModelSpec {
+    let mut s = spec.clone();
+    let n = spec.n();
+    s.pure.push(spec.pure[comp].clone());
+    for (i, j, b) in &spec.binary {
+        if *i == comp {
+            // (comp, j) -> (j, n) with j < n: orientation flips
+            let mut v = b.clone();
+            if let Some(arr) = v.get("site_indices").and_then(|x| x.as_array()).cloned() {
+                v["site_indices"] = json!([arr[1], arr[0]]);
+            }
+            s.binary.push((*j, n, v));
+        } else if *j == comp {
+            s.binary.push((*i, n, b.clone()));
+        }
+    }
+    s
+}
+
+pub(crate) fn site_moles_fraction(spec: &ModelSpec) -> f64 {
+    // upper bound of (number of association sites per molecule), used for the solver-tolerance atol
+    spec.pure
+        .iter()
+        .map(|p| mr_f64(p, "na") + mr_f64(p, "nb") + mr_f64(p, "nc"))
+        .fold(2.0, f64::max)
+}
+
+fn check_split(case: &Case, obs: &mut Obs, key: &str) {
+    let spec = &case.spec;
+    obs.class(format!("{key}/{:?}", spec.family));
+    let n = spec.n();
+    let comp = case.comp.min(n - 1);
+    let left = try_discard!(obs, "build", spec.build());
+    let inp = try_discard!(obs, "inputs", state_inputs(spec, &left, &case.state));
+    let l = try_discard!(obs, "left state", props(&left, &inp, &[]));
+    if !l.a.0.is_finite() {
+        obs.discard(format!("non-finite A_res:{:?}", spec.family));
+        return;
+    }
+    let rs = split_spec(spec, comp);
+    let right = try_discard!(obs, "build split", rs.build());
+    let nl = inp.2.to_reduced();
+    let mut nr: Vec<f64> = nl.to_vec();
+    nr.push(nl[comp] * (1.0 - case.split));
+    nr[comp] = nl[comp] * case.split;
+    let inp_r: Inputs = (inp.0, inp.1, Moles::from_reduced(Array1::from_vec(nr)));
+    let r = try_discard!(obs, "right state", props(&right, &inp_r, &[]));
+    if !r.a.0.is_finite() && spec.has_association() {
+        // the iterative solver reports NotConverged as NaN (equation of state) - a failure to
+        // return a value, not a disagreement of two returned values
+        obs.discard(format!("non-finite A_res of the split model (cross-association solver not converged):{:?}", spec.family));
+        return;
+    }
+    let mut map: Vec<usize> = (0..n).collect();
+    map.push(comp);
+    feature_classes(obs, key, spec, &l);
+    // which solver does each side use? (one A-B pair and/or one C site => closed form)
+    let assoc_c = |p: &Props| p.contributions.iter().find(|(n, _)| n.contains("ssociation")).map(|(_, v)| *v).unwrap_or(0.0);
+    let a_assoc = assoc_c(&l);
+    if a_assoc > 0.0 {
+        let sites = |s: &ModelSpec| -> (usize, usize, usize) {
+            let mut t = (0, 0, 0);
+            for p in &s.pure {
+                t.0 += (mr_f64(p, "na") > 0.0) as usize;
+                t.1 += (mr_f64(p, "nb") > 0.0) as usize;
+                t.2 += (mr_f64(p, "nc") > 0.0) as usize;
+            }
+            t
+        };
+        if !matches!(spec.family, Family::GcPcSaft | Family::GcPcSaftFunctional) {
+            let (a, b, c) = sites(spec);
+            let analytic = matches!((a * b, c), (1, 0) | (0, 1) | (1, 1));
+            obs.class(format!("{key}/{}", if analytic { "closed form vs iterative" } else { "iterative vs iterative" }));
+        }
+    }
+    // A itself carries the solver tolerance: |delta(beta A)| <= sum_sites N_site * |dX|, dX <~ tol
+    let tol_solver = spec.opts.tol_cross_assoc.max(1e-10);
+    let extra = if a_assoc > 0.0 { 100.0 * tol_solver * site_moles_fraction(spec) } else { 0.0 };
+    let xs: Vec<f64> = nl.iter().map(|n| n / l.ntot).collect();
+    let stiff = assoc_stiffness(spec, l.t, l.ntot / l.vol, &xs, case.state.f_eta * spec.opts.max_eta);
+    let tol = if a_assoc > 0.0 { with_stiffness(TOL_ASSOC, stiff) } else { TOL_IMPL };
+    let floor = if a_assoc > 0.0 { FLOOR_ASSOC * site_moles_fraction(spec) } else { 0.0 };
+    // functionals: known findings of the association functional contribution apply to either side
+    let mut sigs = dft_signatures(spec);
+    sigs.extend(dft_signatures(&rs));
+    sigs.retain(|k| k.id.starts_with("C08/association-functional") && crate::engine::known_open(k.id));
+    let mut probe = Obs::default();
+    let pkey = if sigs.is_empty() { key.to_string() } else { format!("{key}(probe)") };
+    let sharp = compare(&mut probe, &pkey, &l, &r, &map, tol, extra, floor);
+    if probe.fails.is_empty() || sigs.is_empty() {
+        obs.comparisons += probe.comparisons;
+        for f in probe.fails {
+            obs.fail(f);
+        }
+        if sharp >= 5 && a_assoc > 1e3 * (extra + ATOL_A) {
+            obs.nontrivial();
+        }
+        return;
+    }
+    for k in &sigs {
+        obs.class(format!("{key}/signature:{}", k.id));
+        obs.known_or_fail(k.id, probe.fails[0].clone());
+    }
+    // the pure-component PC-SAFT functional evaluates association inside "Pure FMT+association"
+    const ASSOC_FMT: [&str; 5] =
+        ["Association", "Pure FMT+association", "FMT functional (WB)", "FMT functional (KR)", "FMT functional (AntiSymWB)"];
+    let lx = try_discard!(obs, "left state", props(&left, &inp, &ASSOC_FMT));
+    let rx = try_discard!(obs, "right state", props(&right, &inp_r, &ASSOC_FMT));
+    compare(obs, &format!("{key}(masked)"), &lx, &rx, &map, TOL_IMPL, 0.0, 0.0);
+    let _ = stiff;
+}
+
+fn check_forced(case: &Case, obs: &mut Obs, key: &str) {
+    let spec = &case.spec;
+    let model = try_discard!(obs, "build", spec.build());
+    let inp = try_discard!(obs, "inputs", state_inputs(spec, &model, &case.state));
+    let o = &spec.opts;
+    let pl = Arc::new(try_discard!(obs, "params", spec.pcsaft_params()));
+    let pr = Arc::new(try_discard!(obs, "params", spec.pcsaft_params()));
+    let left = Arc::new(AssocOnly::new(pl, false, o.max_iter_cross_assoc, o.tol_cross_assoc));
+    let right = Arc::new(AssocOnly::new(pr, true, o.max_iter_cross_assoc, o.tol_cross_assoc));
+    let l = try_discard!(obs, "left state", props(&left, &inp, &[]));
+    let r = try_discard!(obs, "right state", props(&right, &inp, &[]));
+    if !l.a.0.is_finite() || !r.a.0.is_finite() {
+        obs.discard("non-finite association energy (solver not converged)");
+        return;
+    }
+    let (mut a, mut b, mut c) = (0, 0, 0);
+    for p in &spec.pure {
+        a += (mr_f64(p, "na") > 0.0 && p["model_record"].get("kappa_ab").is_some()) as usize;
+        b += (mr_f64(p, "nb") > 0.0 && p["model_record"].get("kappa_ab").is_some()) as usize;
+        c += (mr_f64(p, "nc") > 0.0 && p["model_record"].get("kappa_ab").is_some()) as usize;
+    }
+    let analytic = matches!((a * b, c), (1, 0) | (0, 1) | (1, 1));
+    obs.class(format!("{key}/{}", if analytic { "closed form vs forced iterative" } else { "iterative on both sides" }));
+    obs.class(format!("{key}/sites a*b={} c={}", a * b, c));
+    let map: Vec<usize> = (0..spec.n()).collect();
+    let extra = 100.0 * o.tol_cross_assoc.max(1e-10) * site_moles_fraction(spec);
+    let xs: Vec<f64> = inp.2.to_reduced().iter().map(|n| n / l.ntot).collect();
+    let stiff = assoc_stiffness(spec, l.t, l.ntot / l.vol, &xs, case.state.f_eta * spec.opts.max_eta);
+    let sharp = compare(obs, key, &l, &r, &map, with_stiffness(TOL_ASSOC, stiff), extra, FLOOR_ASSOC * site_moles_fraction(spec));
+    let a_assoc = l.a.0.abs() / (l.t * l.ntot);
+    if analytic && sharp >= 5 && a_assoc > 1e3 * (extra + ATOL_A) {
+        obs.nontrivial();
+    }
+}
+
+fn check_homo(case: &Case, obs: &mut Obs, key: &str) {
+    let spec = &case.spec;
+    obs.class(format!("{key}/{}", spec.source));
+    let reference = try_discard!(obs, "reference", homo_reference(spec));
+    let multi = reference.npolar.iter().any(|&k| k > 1);
+    let lp = match homo_left_params(spec) {
+        Ok(p) => p,
+        Err(e) => {
+            if multi && e.contains("Too many polar") {
+                obs.class(format!("{key}/more than one polar or associating group: rejected as documented"));
+                obs.count();
+                obs.nontrivial();
+            } else if !multi {
+                obs.fail(format!("from_segments rejects a record with at most one polar/associating group per molecule: {e}"));
+            } else {
+                obs.discard(format!("from_segments:{}", e.chars().take(48).collect::<String>()));
+            }
+            return;
+        }
+    };
+    if multi {
+        // documented: "We do not allow more than a single segment for q, mu, kappa_ab, epsilon_k_ab"
+        obs.fail("from_segments accepted a molecule with more than one polar/associating group".to_string());
+        return;
+    }
+    let rspec = ModelSpec {
+        family: Family::PcSaft,
+        pure: reference.pure.clone(),
+        binary: reference.binary.clone(),
+        seg: None,
+        opts: spec.opts.clone(),
+        source: "reference".into(),
+    };
+    let rp = try_discard!(obs, "reference params", rspec.pcsaft_params());
+    // parameters
+    let n = spec.n();
+    for i in 0..n {
+        obs.close(&format!("m[{i}]"), lp.m[i], rp.m[i], 1e-13, 0.0);
+        obs.close(&format!("sigma[{i}]"), lp.sigma[i], rp.sigma[i], 1e-13, 0.0);
+        obs.close(&format!("epsilon_k[{i}]"), lp.epsilon_k[i], rp.epsilon_k[i], 1e-13, 0.0);
+        obs.close(&format!("mu[{i}]"), lp.mu[i], rp.mu[i], 1e-13, 0.0);
+        obs.close(&format!("q[{i}]"), lp.q[i], rp.q[i], 1e-13, 0.0);
+        obs.close(&format!("molarweight[{i}]"), lp.molarweight[i], rp.molarweight[i], 1e-13, 0.0);
+        for j in 0..n {
+            obs.close(&format!("epsilon_k_ij[{i},{j}]"), lp.epsilon_k_ij[[i, j]], rp.epsilon_k_ij[[i, j]], 1e-13, 0.0);
+            obs.close(&format!("sigma_ij[{i},{j}]"), lp.sigma_ij[[i, j]], rp.sigma_ij[[i, j]], 1e-13, 0.0);
+        }
+    }
+    if lp.m.iter().any(|&m| m <= 0.0) {
+        obs.discard("non-positive segment number after combination");
+        return;
+    }
+    if reference.binary.iter().any(|(_, _, b)| b["k_ij"].as_f64().unwrap() != 0.0) {
+        obs.class(format!("{key}/k_ij != 0"));
+    }
+    let left = Arc::new(PcSaft::with_options(Arc::new(lp), spec.opts.pcsaft()));
+    let right = Arc::new(PcSaft::with_options(Arc::new(rp), spec.opts.pcsaft()));
+    // state from the reference spec (T scale, max density)
+    let rmodel = try_discard!(obs, "build reference", rspec.build());
+    let inp = try_discard!(obs, "inputs", state_inputs(&rspec, &rmodel, &case.state));
+    let l = try_discard!(obs, "left state", props(&left, &inp, &[]));
+    let r = try_discard!(obs, "right state", props(&right, &inp, &[]));
+    feature_classes(obs, key, &rspec, &r);
+    let map: Vec<usize> = (0..n).collect();
+    let sharp = compare(obs, key, &l, &r, &map, TOL_GC, 0.0, 0.0);
+    let distinct_groups = spec.pure.iter().any(|p| {
+        let a = p["segments"].as_array().unwrap();
+        a.iter().any(|s| s != &a[0])
+    });
+    if sharp >= 5 && distinct_groups {
+        obs.nontrivial();
+    }
+}
+
+fn check_pr(case: &Case, obs: &mut Obs, key: &str) {
+    let spec = &case.spec;
+    let model = try_discard!(obs, "build", spec.build());
+    let inp = try_discard!(obs, "inputs", state_inputs(spec, &model, &case.state));
+    let s = try_discard!(obs, "state", State::new_nvt(&model, inp.0, inp.1, &inp.2).map_err(|e| e.to_string()));
+    // textbook closed form in SI units
+    const R: f64 = 8.31446261815324; // J/(mol K) = k_B N_A (exact SI 2019)
+    let t = inp.0.convert_to(KELVIN);
+    let v_tot = inp.1.convert_to(METER * METER * METER);
+    let moles: Vec<f64> = inp.2.convert_to(MOL).to_vec();
+    let ntot: f64 = moles.iter().sum();
+    let x: Vec<f64> = moles.iter().map(|m| m / ntot).collect();
+    let v = v_tot / ntot; // m^3/mol
+    let n = spec.n();
+    let rec = |i: usize, k: &str| spec.pure[i]["model_record"][k].as_f64().unwrap();
+    let mut kij = vec![vec![0.0; n]; n];
+    for (i, j, b) in &spec.binary {
+        kij[*i][*j] = b.as_f64().unwrap();
+        kij[*j][*i] = b.as_f64().unwrap();
+    }
+    let a_alpha: Vec<f64> = (0..n)
+        .map(|i| {
+            let (tc, pc, w) = (rec(i, "tc"), rec(i, "pc"), rec(i, "acentric_factor"));
+            let kappa = 0.37464 + 1.54226 * w - 0.26992 * w * w;
+            let alpha = (1.0 + kappa * (1.0 - (t / tc).sqrt())).powi(2);
+            0.45724 * R * R * tc * tc / pc * alpha
+        })
+        .collect();
+    let b: f64 = (0..n).map(|i| x[i] * 0.07780 * R * rec(i, "tc") / rec(i, "pc")).sum();
+    let mut a = 0.0;
+    for i in 0..n {
+        for j in 0..n {
+            a += x[i] * x[j] * (a_alpha[i] * a_alpha[j]).sqrt() * (1.0 - kij[i][j]);
+        }
+    }
+    let rep = R * t / (v - b);
+    let att = a / (v * v + 2.0 * b * v - b * b);
+    let p_ref = rep - att;
+    let p_lib = s.pressure(Contributions::Total).convert_to(PASCAL);
+    let scale = rep.abs() + att.abs();
+    let d = (p_lib - p_ref).abs();
+    track(&format!("{key}/pressure(Total)"), d / (TOL_PR * scale), d / scale);
+    obs.close_scaled("pressure(Total) vs RT/(v-b) - a alpha/(v^2+2bv-b^2) [Pa]", p_lib, p_ref, TOL_PR, scale);
+    // residual part: p - RT/v
+    let p_res_lib = s.pressure(Contributions::Residual).convert_to(PASCAL);
+    let ig = R * t / v;
+    obs.close_scaled("pressure(Residual) vs closed form - RT/v [Pa]", p_res_lib, p_ref - ig, TOL_PR, scale + ig);
+    // dp/dV (total volume) = (dp/dv)/N
+    let dpdv_ref = (-R * t / (v - b).powi(2) + a * (2.0 * v + 2.0 * b) / (v * v + 2.0 * b * v - b * b).powi(2)) / ntot;
+    let dpdv_lib = s.dp_dv(Contributions::Total).convert_to(PASCAL / (METER * METER * METER));
+    let sc = (R * t / (v - b).powi(2) + (a * (2.0 * v + 2.0 * b) / (v * v + 2.0 * b * v - b * b).powi(2)).abs()) / ntot;
+    obs.close_scaled("dp_dv(Total) vs closed form [Pa/m^3]", dpdv_lib, dpdv_ref, TOL_PR, sc);
+    obs.class(format!("{key}/{}", if att > 1e-3 * rep { "attraction > 0.1 % of repulsion" } else { "repulsion dominated" }));
+    obs.class(format!("{key}/{}", if spec.binary.is_empty() { "no k_ij" } else { "k_ij" }));
+    if att > 1e3 * TOL_PR * scale && (rep - ig).abs() > 1e3 * TOL_PR * scale {
+        obs.nontrivial();
+    }
+}
+/// SI evaluation: ~10 roundings of the closed form, unit conversion factors (k_B, N_A, 1e-30)
+const TOL_PR: f64 = 1e-12;
+
+// ---------------------------------------------------------------------------------------
+// Parts
+// ---------------------------------------------------------------------------------------
+const fn part(name: &'static str, quick: u32, thorough: u32) -> PartCfg {
+    PartCfg { name, genome_len: 96, cases_quick: quick, cases_thorough: thorough, panic: PanicPolicy::Count }
+}
+const PARTS: [(Pair, PartCfg); 8] = [
+    (Pair::DftBulk, part("dft-bulk", 3200, 320_000)),
+    (Pair::Wrapper, part("wrapper", 800, 80_000)),
+    (Pair::EpcIonFree, part("epcsaft-ion-free", 3000, 240_000)),
+    (Pair::VrqVsVrMie, part("vrq-fh0-vs-vrmie", 1500, 100_000)),
+    (Pair::AssocSplit, part("assoc-split", 1200, 120_000)),
+    (Pair::AssocForced, part("assoc-forced-cross", 1500, 100_000)),
+    (Pair::HomoGc, part("homo-gc", 1500, 100_000)),
+    (Pair::PengRobinson, part("peng-robinson", 2000, 150_000)),
+];
+
+pub fn run(ctx: &Ctx) {
+    ctx.set_rule("eight sampled parts, one per pair class; every case = (pair class, left ModelSpec, StateSpec of DESIGN 3.2: tau in [0.4,3], eta fraction log-uniform [2e-6,0.9] / uniform, open-simplex composition, moles 1e-3..1e3). Right model derived from the same spec: functional -> equation of state of the same records and options (FMT functional -> BMCSL HardSphere contribution); bare typed struct vs ResidualModel variant vs EquationOfState<IdealGasModel,_>; PC-SAFT (non-polar) -> ePC-SAFT; SAFT-VR Mie (m=1) -> SAFT-VRQ Mie (fh=0); component A -> (A,A) with split mole numbers; Association::new -> new_cross_association; from_segments -> from_records of the harness-combined record; Peng-Robinson -> closed form in SI. Non-trivial: at least 5 of the compared quantities exceed 1e3 x their allowed deviation (a 0.1 % error would be detected) and the class-specific feature is present (association contribution > 1e3 x floor for the association pairs; >= 2 distinct groups for homo-GC; attraction and repulsion both above 1e3 x tolerance for Peng-Robinson). Distinct by hash of the canonical case JSON.");
+    ctx.assume("allowed deviation of every quantity = rel * min(S_l,S_r) + round * max(S_l,S_r), S = sum over the side's contributions of |d^k A_c| (public contributions route); two implementations (functional vs equation of state): rel 1e-9, round 1e-12, atol 1e-11 on beta A/N; wrappers and ePC-SAFT/PC-SAFT: 1e-13 (measured bitwise); homosegmented group contribution: 1e-11 (HashMap summation order); SAFT-VRQ Mie FH0 vs SAFT-VR Mie (pure monomers): rel 1e-3 (two different quadratures of the Barker-Henderson diameter, measured 1.5e-5 over 28 seeds); pairs through the iterative association solver: rel 1e-8, atol 100 x tol_cross_assoc x sites on beta A/N and 2e-14 x sites of the ideal-like scale (N T, rho T, N, T, ...) on every quantity (monomer fractions carry an absolute error of a few eps); wherever an association term is compared rel grows by 1e-14 x (rho Delta) (conditioning of the closed form and of the Newton solver at strong association); Peng-Robinson: 1e-12 of (|RT/(v-b)| + |a/(..)|) in Pa");
+    ctx.assume("outside the domain by model definition: SAFT-VRQ Mie vs SAFT-VR Mie mixtures (non-additive vs additive d_ij), (A,A) splitting with the gc-PC-SAFT group-group k_ij table; NaN of the equation of state after NotConverged of the cross-association solver is a discard (no value returned), not a disagreement");
+    ctx.assume("the bare models are trusted to be internally consistent (C01/C02); this check only compares two routes");
+    for (pair, cfg) in PARTS.iter() {
+        ctx.run_sampled(cfg, &decode_pair(*pair), &check);
+    }
+    let w = WORST.lock().unwrap();
+    let cal: BTreeMap<String, Value> = w
+        .iter()
+        .map(|(k, (ratio, rel))| (k.clone(), json!({"worst_diff_over_allowed": ratio, "worst_diff_over_min_scale": rel})))
+        .collect();
+    ctx.extra("calibration", json!(cal));
+}
+
+pub fn replay(ctx: &Ctx, _part: &str, case: &Value) -> bool {
+    ctx.replay_case::<Case>(case, &check)
+}
+
+#[allow(dead_code)]
+fn _unused(_: PureRecord<PcSaftRecord>) {}
